@@ -441,6 +441,7 @@ _ilitx = st.one_of(
     _ilit, _ilit, _ilit,
     st.tuples(st.just("lx"), _base).map(list),
     st.tuples(st.just("bp"), _base).map(list),
+    st.tuples(st.just("bp"), _base).map(list),
     st.tuples(st.just("lt"), _base, st.sampled_from(["i", "I", "D1", "D2", "N"])).map(list),
 )
 
